@@ -532,7 +532,7 @@ func c01R4(c *Ctx) {
 				}
 				hitO, pathO := reachFromE(a.Block(), instrIndex(a.(ssa.Instruction))+1, func(in ssa.Instruction) bool {
 					return isNilErrReturn(in) || isRole(side.roles[0])(in)
-				}, isRole(side.roles[i+1]), eb)
+				}, c.orWrapper("role:"+fname+":"+side.roles[i+1].name, isRole(side.roles[i+1])), eb)
 				c.check(hitO == nil, fname+"/"+side.roles[i].name+"=>"+side.roles[i+1].name, c.ipos(a), "after '"+side.roles[i].name+"' the loop cannot go on to the next file (or succeed) without '"+side.roles[i+1].name+"'", "after the '"+side.roles[i].name+"' step the loop can go on to the next file or succeed without the '"+side.roles[i+1].name+"' step: the peer still waits for it", c.pathStr(pathO)...)
 			}
 		}
@@ -777,16 +777,16 @@ func c01R8(c *Ctx) {
 			call, _ := callOf(v)
 			return call != nil && calleeID(&call.Call) == "builtin len" && isFieldLoad("SubFiles")(call.Call.Args[0])
 		}
-		hit, path := reachFromE(v3.Blocks[0], 0, isNilErrReturn, func(in ssa.Instruction) bool {
+		hit, path := reachFromE(v3.Blocks[0], 0, isNilErrReturn, c.orWrapper("archive-reader", func(in ssa.Instruction) bool {
 			ci, ok := in.(ssa.CallInstruction)
 			return ok && calleeID(ci.Common()) == tT+"newArchiveReader"
-		}, contradicts([]assumption{valueIs(isLenSub, 2)}))
+		}), contradicts([]assumption{valueIs(isLenSub, 2)}))
 		c.check(hit == nil, "sendFileNameV3/subfiles=>archive-stream", c.pos(v3.Pos()), "an entry with sub-files always gets the archive reader", "an entry with sub-files can be announced without building the archive stream (its files are never sent, both ends report success)", c.pathStr(path)...)
 		cd := c.fn("trzszTransfer.createDirOrFile")
-		hit, path = reachFromE(cd.Blocks[0], 0, isNilErrReturn, func(in ssa.Instruction) bool {
+		hit, path = reachFromE(cd.Blocks[0], 0, isNilErrReturn, c.orWrapper("archive-writer", func(in ssa.Instruction) bool {
 			ci, ok := in.(ssa.CallInstruction)
 			return ok && calleeID(ci.Common()) == tT+"newArchiveWriter"
-		}, contradicts([]assumption{{pred: isFieldLoad("Archive"), val: true}}))
+		}), contradicts([]assumption{{pred: isFieldLoad("Archive"), val: true}}))
 		c.check(hit == nil, "createDirOrFile/archive=>archive-writer", c.pos(cd.Pos()), "an entry flagged as archive always gets the archive writer", "an entry flagged as archive can be created without the archive writer (its stream is never unpacked, both ends report success)", c.pathStr(path)...)
 	}
 	m := c.fn("sourceFile.marshalSourceFile")
@@ -1295,7 +1295,7 @@ func c01R13(c *Ctx) {
 			}
 			return false
 		}
-		hitE, pathE := reachFrom(wc.Blocks[0], 0, isNilErrReturn, isEnd)
+		hitE, pathE := reachFrom(wc.Blocks[0], 0, isNilErrReturn, c.orWrapper("end-marker", isEnd))
 		c.check(hitE == nil, "sendDataWriter.Close/always-end-marker", c.pos(wc.Pos()), "Close succeeds only after delivering the end-of-data marker", "Close can succeed without delivering the end-of-data marker: the sending stage never learns that the file is complete and both ends wait", c.pathStr(pathE)...)
 	}
 	c.check(nEmpty == 1 && nData == 1, "sendDataWriter.Close/one-end-marker", c.pos(wc.Pos()), "closing a file's writer delivers the rest of the buffer and then exactly one empty chunk", fmt.Sprintf("closing a file's writer delivers %d data chunk(s) and %d empty chunk(s); expected 1 and 1", nData, nEmpty))
